@@ -276,6 +276,7 @@ def run(P, R, tier):
     cg = callgraph(P)
 
     initorder_rule(P, R, ("phrq_io", "ioInstance"))
+    unloadclear_rule(P, R)
     # ------------------------------------------------------------------ C07.order
     R.rule("C07.order", "reload sequence: UnLoadDatabase before read_database; clean_up < init < do_initialize; test_db on the success path", minimum=6)
     un = P.one("IPhreeqc::UnLoadDatabase")
@@ -539,3 +540,30 @@ def initorder_rule(P, R, survivors):
     for line, m in bad:
         R.violation("C07.initorder", "Phreeqc::init:%s" % m.split("::")[-1], "init() reads `%s` at line %d before assigning it: the value comes from before the load, so what is derived from it "
                     "differs between a reloaded and a fresh instance" % (m.split("::")[-1], line), file=f["file"], line=line, function=f["q"])
+
+
+def unloadclear_rule(P, R):
+    """"After LoadDatabase ... every result observable afterwards equals what a newly created instance gives": the error and warning texts
+    of the instance are kept by two reporter objects; the strings and line views are only views of them (update_errors).  UnLoadDatabase,
+    with which every load starts, must empty each reporter with Clear() - clearing a view leaves the text in the reporter, and test_db
+    then takes the warnings of the last run before the load for warnings of the load."""
+    RULE = "C07.unloadclear"
+    R.rule(RULE, "UnLoadDatabase empties every reporter member (IErrorReporter *) with Clear()", minimum=2)
+    rec = P.records.get("IPhreeqc")
+    f = P.one("IPhreeqc::UnLoadDatabase")
+    reps = [fld["name"] for fld in rec["fields"] if "IErrorReporter" in fld["type"]]
+    if len(reps) < 2:
+        R.anchor_missing(RULE, "reporter members of IPhreeqc: %s" % reps)
+        return
+    cleared = set()
+    for c in T.calls(f["body"]):
+        if T.callee_name(c) == "Clear" and T.call_obj(c) is not None:
+            for y in T.walk(T.call_obj(c)):
+                if y[0] == "Member":
+                    cleared.add(y[2].split("::")[-1])
+    for r_ in reps:
+        if r_ in cleared:
+            R.ok(RULE, r_, "Clear() in UnLoadDatabase")
+        else:
+            R.violation(RULE, r_, "UnLoadDatabase does not call %s->Clear(): the text of the last run before the load survives in the reporter and comes back as the load's own "
+                        "(test_db re-adds what the reporter holds)" % r_, file=f["file"], line=f["line"], function=f["q"])
